@@ -92,6 +92,8 @@ def run(ctx):
                 "the mutation changes the outcome class; distinct = (type, mutation kinds, library outcome class)")
     standard_front(ctx, __import__("c01"))
     rng = ctx.rng
+    # when a proof obligation or the translation of one type broke, search that type harder for a failing input
+    boost = set(re.findall(r"MT(\d{3})", " ".join(ctx.broken)))
     known, _ = load_known(PROP)
     seeds = mtgen.load_seeds(limit=None if ctx.tier == "thorough" else 2)
     nmut = 40 if ctx.tier == "thorough" else 14
@@ -107,7 +109,7 @@ def run(ctx):
             msgs.append((c, "\n" + mtgen.render(toks) + "\n")); meta.append(("seed", name, toks))
             msgs.append((c, "\r\n" + mtgen.render(toks).replace("\n", "\r\n") + "\r\n")); meta.append(("seed-crlf", name, toks))
             msgs.append((c, mtgen.render(toks) + "\n-")); meta.append(("seed-dash", name, toks))
-            for k in range(nmut):
+            for k in range(nmut * (12 if c in boost else 1)):
                 t2, kinds = toks, []
                 for _ in range(rng.choice([1, 1, 1, 2])):
                     r = mtgen.mutate(rng, t2, rng.choice(["insert_unknown", "dup", "swap", "corrupt", "append", "delete", "dupseq", "dupseq", "retag", "insert_sibling"]))
@@ -133,7 +135,7 @@ def run(ctx):
         g = layoutgen.Gen(layouts, pool, rng)
         ngen = 120 if ctx.tier == "thorough" else 25
         for c in mtgen.SUPPORTED:
-            for k in range(ngen):
+            for k in range(ngen * (8 if c in boost else 1)):
                 g.p_opt = rng.choice([0.2, 0.5, 0.8])
                 r = g.gen("MT" + c)
                 if r is None:
